@@ -3,7 +3,8 @@
 usage: pyxlate.py <out_py dir> <module name> <jobs.json> <results.json>
 job: {"proto": "P", "infmt": "b"|"j", "outfmt": "b"|"j", "in": path, "out": path,
       "chunk": optional int -> feed the reader through a raw stream that returns at most `chunk` bytes per read,
-      "mode": "hold" + "steps": read everything, then write; with "reuse" streams are written from a generator that re-yields one mutated object;
+      "mode": "hold" + "steps": read everything, then write; with "relayout" every multi-dimensional array is handed to the writer in Fortran order or as a strided view; with "reuse" streams are written from a generator that re-yields one mutated object; with "foreign_arrays" streams of scalars /
+      flat records are written from one NumPy array of another byte order, width or field order holding the same values;
       with "empty_batches" streams are written by several calls with empty lists between}
 result: {"rc": 0|3, "exc": str}
 """
@@ -51,6 +52,74 @@ def reusing(items):
         yield shared
 
 
+def relayout(x, depth=0):
+    """the same value with every multi-dimensional NumPy array in it stored in another memory layout (Fortran order, or a strided view of a larger
+    buffer): what an array *is* does not depend on how NumPy keeps it in memory"""
+    import numpy as np
+    if depth > 6:
+        return x
+    if isinstance(x, np.ndarray):
+        if x.ndim >= 2 and x.size > 1 and x.dtype.kind != "O":
+            if x.shape[0] % 2:
+                return np.asfortranarray(x)
+            big = np.zeros(tuple(2 * d for d in x.shape), dtype=x.dtype)
+            view = big[tuple(slice(0, 2 * d, 2) for d in x.shape)]
+            view[...] = x
+            return view
+        if x.dtype.kind == "O":
+            out = np.empty(x.shape, dtype=object)
+            for idx in np.ndindex(x.shape):
+                out[idx] = relayout(x[idx], depth + 1)
+            return out
+        return x
+    if isinstance(x, list):
+        return [relayout(y, depth + 1) for y in x]
+    if isinstance(x, dict):
+        return {k: relayout(y, depth + 1) for k, y in x.items()}
+    if isinstance(x, tuple):
+        return tuple(relayout(y, depth + 1) for y in x)
+    if hasattr(x, "__dict__") and not isinstance(x, (type, enum.Enum)) and type(x).__module__ not in ("builtins", "numpy", "datetime"):
+        import copy
+        y = copy.copy(x)
+        for k, val in list(vars(x).items()):
+            try:
+                setattr(y, k, relayout(val, depth + 1))
+            except Exception:   # noqa: BLE001
+                pass
+        return y
+    return x
+
+
+def as_foreign_array(mod, items):
+    """the items of a stream as ONE NumPy array whose dtype is not the generated one but holds the same values: scalars in big-endian byte order or
+    in a wider type, records as a structured array with the fields in the opposite order. None when the items do not lend themselves to it."""
+    import numpy as np
+    if len(items) < 2:
+        return None
+    first = items[0]
+    try:
+        if isinstance(first, (float, np.floating)):
+            if not all(isinstance(x, (float, np.floating)) for x in items):
+                return None
+            wide = np.array(items, dtype=np.float64)
+            return wide.astype(wide.dtype.newbyteorder(">")) if len(items) % 2 else wide
+        if isinstance(first, (bool, np.bool_)) or not hasattr(first, "__dict__") or isinstance(first, enum.Enum):
+            return None
+        if not all(type(x) is type(first) for x in items):
+            return None
+        dt = mod.get_dtype(type(first))
+        names = list(dt.names or ())
+        if len(names) < 2 or any(dt.fields[n][0].kind == "O" or dt.fields[n][0].names or dt.fields[n][0].shape for n in names):
+            return None
+        rd = np.dtype({"names": names[::-1], "formats": [dt.fields[n][0] for n in names[::-1]]})
+        arr = np.empty(len(items), dtype=rd)
+        for n in names:
+            arr[n] = [getattr(it, n) for it in items]
+        return arr
+    except Exception:   # noqa: BLE001
+        return None
+
+
 def main():
     out_py, modname, jobs_fn, res_fn = sys.argv[1:5]
     sys.path.insert(0, out_py)
@@ -83,6 +152,8 @@ def main():
                     v = getattr(r, "read_" + st["name"])()
                     held.append(list(v) if st["stream"] else v)
                 r.close()
+                if job.get("relayout"):
+                    held = [relayout(v) for v in held]
                 for st, v in zip(job["steps"], held):
                     wr = getattr(w, "write_" + st["name"])
                     if st["stream"] and job.get("empty_batches"):
@@ -96,6 +167,8 @@ def main():
                         wr(iter(()))
                     elif st["stream"] and job.get("reuse"):
                         wr(reusing(v))
+                    elif st["stream"] and job.get("foreign_arrays") and as_foreign_array(mod, v) is not None:
+                        wr(as_foreign_array(mod, v))
                     else:
                         wr(v)
                 w.close()
